@@ -3,8 +3,10 @@
 package vault
 
 import (
+	"context"
 	"fmt"
 	"strings"
+	"sync"
 	"testing"
 	"time"
 
@@ -33,6 +35,9 @@ type c19Env struct {
 	tc  *tcore
 	hub *recHub
 	ns1 *namespace.Namespace
+	// cancels: backend path -> cancel function of the request context of the request that is addressed to it; the
+	// recording backend's handler calls it (the client goes away while its request is being served)
+	cancels sync.Map
 }
 
 func newC19Env(t *testing.T, transactional bool) *c19Env {
@@ -51,7 +56,19 @@ func newC19Env(t *testing.T, transactional bool) *c19Env {
 	}
 	tc.mustOK(tc.reqNS(ns1, logical.UpdateOperation, "sys/mounts/rb", tc.root, map[string]any{"type": "recbe"}), "mount in ns1")
 	tc.mustOK(tc.req(logical.UpdateOperation, "auth/token/roles/c19orphan", tc.root, map[string]any{"orphan": true, "allowed_policies": "default,c19"}), "orphan role")
-	return &c19Env{tc: tc, hub: hub, ns1: ns1}
+	e := &c19Env{tc: tc, hub: hub, ns1: ns1}
+	hub.mu.Lock()
+	hub.hook = func(stage string, ctx context.Context, req *logical.Request) {
+		if f, ok := e.cancels.Load(stage + ":" + req.Path); ok {
+			f.(context.CancelFunc)()
+			select {
+			case <-ctx.Done():
+			case <-time.After(time.Second):
+			}
+		}
+	}
+	hub.mu.Unlock()
+	return e
 }
 
 func (e *c19Env) request(kind string, i int, tok string) rr {
@@ -67,6 +84,17 @@ func (e *c19Env) request(kind string, i int, tok string) rr {
 		return tc.req(logical.ReadOperation, fmt.Sprintf("other/echo/t%d", i), tok, nil)
 	case "creds":
 		return tc.req(logical.ReadOperation, fmt.Sprintf("rb/creds/c%d", i), tok, nil)
+	case "echo-client-gone", "kvwrite-client-gone":
+		// the client's context ends while the backend is serving the request (in the existence check of the write,
+		// in the handler of the read): the use is spent all the same
+		ctx, cancel := context.WithCancel(tc.ctx)
+		defer cancel()
+		if kind == "echo-client-gone" {
+			e.cancels.Store(fmt.Sprintf("handle:echo/t%d", i), cancel)
+			return tc.doCtx(ctx, &logical.Request{Operation: logical.ReadOperation, Path: fmt.Sprintf("rb/echo/t%d", i), ClientToken: tok})
+		}
+		e.cancels.Store(fmt.Sprintf("exist:kv/t%d", i), cancel)
+		return tc.doCtx(ctx, &logical.Request{Operation: logical.UpdateOperation, Path: fmt.Sprintf("rb/kv/t%d", i), ClientToken: tok, Data: map[string]any{"v": i}})
 	case "ns-echo":
 		// the same token presented on a request addressed to the child namespace (namespace by context)
 		return tc.reqNS(e.ns1, logical.ReadOperation, fmt.Sprintf("rb/echo/t%d", i), tok, nil)
@@ -85,7 +113,7 @@ func (e *c19Env) request(kind string, i int, tok string) rr {
 	panic(kind)
 }
 
-var c19Kinds = []string{"echo", "kvread", "kvwrite", "denied", "creds", "lookup", "child", "child-orphan", "child-role", "ns-echo", "ns-kvwrite", "ns-echo"}
+var c19Kinds = []string{"echo", "kvread", "kvwrite", "denied", "creds", "lookup", "child", "child-orphan", "child-role", "ns-echo", "ns-kvwrite", "ns-echo", "echo-client-gone", "kvwrite-client-gone"}
 
 func (e *c19Env) accessors() map[string]bool {
 	r := e.tc.req(logical.ListOperation, "auth/token/accessors/", e.tc.root, nil)
@@ -238,7 +266,17 @@ func TestVerif_C19_UseLimit(t *testing.T) {
 		if reached+tsOK > n {
 			rec.Violation(rt, "more-than-n-uses", describe(), "token with num_uses=%d authorised %d requests (%d reached a backend handler, %d succeeded at the token store)", n, reached+tsOK, reached, tsOK)
 		}
-		if sequential {
+		// a request whose client went away may or may not have got as far as spending a use
+		gone := 0
+		for _, tk := range tasks {
+			if strings.HasSuffix(tk.kind, "-client-gone") {
+				gone++
+			}
+		}
+		if gone > 0 {
+			rec.Class("with-client-gone-request", 1)
+		}
+		if sequential && gone == 0 {
 			// the first n requests consume the uses; exactly those among them that the policy allows succeed
 			for i, tk := range tasks {
 				want := i < n && tk.kind != "denied" && !strings.HasPrefix(tk.kind, "child")
@@ -269,6 +307,12 @@ func TestVerif_C19_UseLimit(t *testing.T) {
 			}
 		}
 		// all m > n requests are done: the token must be dead now
+		if m-gone < n {
+			// fewer than n requests are certain to have spent a use: the token may legitimately be alive; retire it
+			tc.req(logical.UpdateOperation, "auth/token/revoke", tc.root, map[string]any{"token": tok})
+			rec.Case("uses-uncertain", switches > 0, verifx.Digest(n, m, trace, sequential, "gone"), func() any { return describe() })
+			return
+		}
 		before := len(hub.handlerCalls())
 		post := tc.req(logical.ReadOperation, "rb/echo/after", tok, nil)
 		postReached := false
